@@ -1,4 +1,5 @@
-//! C14: JSON serialisation and pretty-printed form of graphs vs the model (Model/Json.v, Model/Pretty.v).
+//! C14: JSON serialisation (value tree and text) and pretty-printed form of graphs vs the model
+//! (Model/Json.v, Model/JsonText.v, Model/Pretty.v).
 //!
 //! A case = a graph built through the public API (add_graph_node / add_edge / Attributes::add /
 //! add_syntax_node) or by executing a small generated DSL program.  Observations of the implementation:
@@ -8,6 +9,11 @@
 //!     (truncated addresses) are rewritten to preorder ids, the only canonicalisation done here.
 //!   * `to_string_pretty` (what display_json writes) and `to_string` re-parsed with serde_json and
 //!     compared with the value (serde_json against itself: a modelled dependency).
+//!   * the REAL text that `Graph::display_json(Some(path))` writes into a file (checked here to equal
+//!     `to_string_pretty(&graph)`), as a code-point list: the model (Model/JsonText.v, Model/C14TextObs.v)
+//!     parses it with its own JSON parser, prints the parsed tree with its own `print_pretty` and compares
+//!     the result with the real text character by character (verdict bit 32); the parsed tree must be the
+//!     `to_value` tree up to member order (the text has hash-map order, which the model reads off the text).
 //!   * `graph.pretty_print().to_string()` as a code-point list; the model compares the whole text and
 //!     also parses it back (split into lines, node/edge/attribute lines).
 //! The graph the model is run on is the in-memory API view (iter_nodes, iter_edges, Attributes::iter),
@@ -26,7 +32,7 @@ pub const SRC: &str = "x = f(1, y)\nif x:\n    z = 'é', y\npass\n";
 /// attribute names: identifiers, names equal to the JSON structure keys, non-ASCII, space/quote.
 /// None contains ':' or a newline (hypothesis `names_ok` of pretty_extract).
 const NAMES: &[&str] = &["a", "b", "name", "k1", "k2", "ty-pe", "x_y", "type", "id", "attrs", "values", "sink", "edges",
-    "naïve", "ключ", "a b", "q\"q", "Z", "aa", "zz9"];
+    "naïve", "ключ", "a b", "q\"q", "Z", "aa", "zz9", "b\\s", "t\tb", "\u{7f}d", "\u{1}k", "a/b"];
 const DSL_NAMES: &[&str] = &["a", "b", "name", "k1", "k2", "ty-pe", "x_y", "type", "id", "attrs", "values", "sink", "edges", "Z", "aa"];
 
 /// strings: empty, quotes (both kinds), backslashes, every ASCII escape class of escape_debug,
@@ -34,7 +40,10 @@ const DSL_NAMES: &[&str] = &["a", "b", "name", "k1", "k2", "ty-pe", "x_y", "type
 /// format characters, CJK, astral plane, private use, line separator, noncharacter-adjacent maximum.
 pub const STRS: &[&str] = &["", "a", "ab", "x y", "a\"q", "it's", "\\", "\\\\n", "tab\t", "nl\n", "cr\r", "nul\0x", "\u{1}", "\u{1b}[0m", "\u{1f}",
     "\u{7f}", "\u{85}", "\u{a0}", "\u{ad}", "héllo", "e\u{301}", "\u{200b}", "\u{200d}", "日本", "😀", "\u{e000}", "\u{2028}", "\u{2029}", "a\u{2029}b", "\u{2027}\u{202a}", "\u{10ffff}", "\u{feff}", "\u{fffd}", "\u{d7ff}\u{e000}",
-    "{}", "[1, 2]", "#null", "node 0", "  k: v", "edge 0 -> 1", "a: b", "\"", "\"\"", "{\"type\":\"int\"}", "ß→∀"];
+    "{}", "[1, 2]", "#null", "node 0", "  k: v", "edge 0 -> 1", "a: b", "\"", "\"\"", "{\"type\":\"int\"}", "ß→∀",
+    // JSON text level (Model/JsonText.v): the two-letter escapes \b \f, \u00XX with hex letters in either digit, '/' (not escaped),
+    // an escape sequence spelled out in the string itself, quote/backslash runs next to escapes
+    "\u{8}", "\u{c}", "bs\u{8}ff\u{c}vt\u{b}", "\u{e}\u{10}\u{1a}\u{1e}", "a/b", "\\u0041", "\\\"", "\r\n\t\"\\/\u{7f}\u{2028}😀\u{1}"];
 
 #[derive(Clone, Debug)]
 pub enum BOp { NodeAttr(u32, String, GV), Edge(u32, u32), EdgeAttr(u32, u32, String, GV) }
@@ -276,6 +285,36 @@ fn json_coq(v: &serde_json::Value, addr: &HashMap<u64, usize>) -> String {
     }
 }
 
+/// a long text as a Coq term: one flat list literal of tens of thousands of elements overflows coqc's
+/// stack (the term is nested as deep as it is long) and coqc needs ~0.1 ms per element, so the text is written
+/// as `concat` of pieces: list literals of at most 1000 characters and `(sp k)` (Model/C14TextObs.v: k spaces)
+/// for every run of at least 6 spaces (the indentation is half of a pretty-printed JSON text)
+fn coq_str_chunked(s: &str) -> String {
+    let chars: Vec<char> = s.chars().collect();
+    if chars.len() <= 200 { return coq_str(s); }
+    let mut pieces: Vec<String> = Vec::new();
+    let mut cur = String::new();
+    let mut cur_len = 0usize;
+    let mut i = 0usize;
+    while i < chars.len() {
+        let mut k = 0usize;
+        while i + k < chars.len() && chars[i + k] == ' ' { k += 1; }
+        if k >= 6 {
+            if cur_len > 0 { pieces.push(coq_str(&cur)); cur.clear(); cur_len = 0; }
+            pieces.push(format!("(sp {})", k));
+            i += k;
+            continue;
+        }
+        let take = k.max(1);
+        for c in &chars[i..i + take] { cur.push(*c); }
+        cur_len += take;
+        i += take;
+        if cur_len >= 1000 { pieces.push(coq_str(&cur)); cur.clear(); cur_len = 0; }
+    }
+    if cur_len > 0 { pieces.push(coq_str(&cur)); }
+    format!("(List.concat {})", coq_list(&pieces))
+}
+
 pub fn make_case(input: &Input) -> Result<Case, String> {
     crate::common::note_input("C14", &match input {
         Input::Api { nodes, ops } => json!({"kind": "api", "nodes": nodes, "ops": ops.iter().map(|o| o.json()).collect::<Vec<_>>()}),
@@ -302,16 +341,18 @@ pub fn make_case(input: &Input) -> Result<Case, String> {
         // Graph::display_json into a file that already holds a LONGER document: the file must then hold exactly this graph
         let path = std::path::PathBuf::from(format!("c14-display-json-{}.json", std::process::id()));
         let filler = format!("{{\"old\": \"{}\"}}", "x".repeat(pretty_txt.len() + 64));
-        let file_ok = std::fs::write(&path, filler).is_ok()
-            && graph.display_json(Some(&path)).is_ok()
-            && std::fs::read_to_string(&path).map(|t| serde_json::from_str::<serde_json::Value>(&t).map(|r| r == jv).unwrap_or(false)).unwrap_or(false);
+        let written = std::fs::write(&path, filler).is_ok() && graph.display_json(Some(&path)).is_ok();
+        // the REAL text of display_json (the bytes of the file, which must be UTF-8); it must also be what to_string_pretty returns
+        let ftxt = if written { std::fs::read(&path).ok().and_then(|b| String::from_utf8(b).ok()) } else { None };
+        let file_ok = ftxt.as_ref().map(|t| *t == pretty_txt && serde_json::from_str::<serde_json::Value>(t).map(|r| r == jv).unwrap_or(false)).unwrap_or(false);
         let _ = std::fs::remove_file(&path);
-        Ok::<_, String>((jv, re1 && re2 && file_ok, text))
+        let jtext = ftxt.unwrap_or_else(|| format!("#display_json failed; to_string_pretty = {}", pretty_txt));
+        Ok::<_, String>((jv, re1 && re2 && file_ok, text, jtext))
     }));
-    let (ij_coq, reparse_ok, text) = match obs {
-        Ok(Ok((jv, ok, text))) => (json_coq(&jv, &addr), ok, text),
-        Ok(Err(e)) => (format!("(JStr {})", coq_str(&format!("#serialize error {}", e))), false, String::new()),
-        Err(_) => (format!("(JStr {})", coq_str("#panicked")), false, String::new()),
+    let (ij_coq, reparse_ok, text, jtext) = match obs {
+        Ok(Ok((jv, ok, text, jtext))) => (json_coq(&jv, &addr), ok, text, jtext),
+        Ok(Err(e)) => (format!("(JStr {})", coq_str(&format!("#serialize error {}", e))), false, String::new(), String::new()),
+        Err(_) => (format!("(JStr {})", coq_str("#panicked")), false, String::new(), String::new()),
     };
 
     // tables for the model: kinds/positions of the referenced syntax nodes straight from tree-sitter,
@@ -332,8 +373,23 @@ pub fn make_case(input: &Input) -> Result<Case, String> {
             }
         }, false);
     }
+    // escape classes of serde_json's string printer that occur in the JSON text (attribute names and string values)
+    let mut esc: BTreeSet<&'static str> = BTreeSet::new();
+    {
+        let mut class = |s: &str| for c in s.chars() {
+            esc.insert(match c {
+                '"' => "json_esc:quote", '\\' => "json_esc:backslash", '\n' => "json_esc:n", '\r' => "json_esc:r", '\t' => "json_esc:t",
+                '\u{8}' => "json_esc:b", '\u{c}' => "json_esc:f", c if (c as u32) < 0x20 => "json_esc:u00XX",
+                '\u{7f}' => "json_raw:DEL", '\u{2028}' | '\u{2029}' => "json_raw:U+2028/9", '/' => "json_raw:slash",
+                c if (c as u32) >= 0x10000 => "json_raw:astral", c if !c.is_ascii() => "json_raw:non_ascii", _ => "json_raw:ascii" });
+        };
+        for (a, es) in &view.nodes { for (k, _) in a { class(k); } for (_, ea) in es { for (k, _) in ea { class(k); } } }
+        for v in view.values() { walk_gv(v, &mut |x, _| if let GV::Str(s) = x { class(s); }, false); }
+    }
     let pe_syn = coq_list(&syn_ids.iter().map(|i| { let n = info.nodes[*i]; let p = n.start_position();
         format!("({}, ({}, ({}, {})))", i, coq_str(n.kind()), p.row, p.column) }).collect::<Vec<_>>());
+    // id of a referenced syntax node in the JSON text (node.index = truncated address) -> preorder id
+    let syn_tbl = coq_list(&syn_ids.iter().map(|i| format!("({}, {})", info.nodes[*i].id() as u32, i)).collect::<Vec<_>>());
     let pe_print = coq_list(&chars.iter().map(|c| format!("({}, {})", *c as u32, coq_bool(c.escape_debug().count() == 1))).collect::<Vec<_>>());
     let env = format!("(Build_penv {} {})", pe_syn, pe_print);
     let g = view.coq();
@@ -358,15 +414,16 @@ pub fn make_case(input: &Input) -> Result<Case, String> {
     if nested { tags.push("nested_list_or_set".into()); }
     if keyname { tags.push("attr_named_like_json_key".into()); }
     if edge_with_attrs { tags.push("edge_attrs".into()); }
+    for e in &esc { tags.push(e.to_string()); }
 
     let replay = match input {
         Input::Api { nodes, ops } => json!({"prop": "C14", "kind": "api", "nodes": nodes, "ops": ops.iter().map(|o| o.json()).collect::<Vec<_>>(), "src": SRC,
-            "impl_pretty": text.chars().take(2000).collect::<String>()}),
-        Input::Dsl { dsl, lazy } => json!({"prop": "C14", "kind": "dsl", "dsl": dsl, "lazy": lazy, "src": SRC, "impl_pretty": text.chars().take(2000).collect::<String>()}),
+            "impl_pretty": text.chars().take(2000).collect::<String>(), "impl_json_text": jtext.chars().take(4000).collect::<String>()}),
+        Input::Dsl { dsl, lazy } => json!({"prop": "C14", "kind": "dsl", "dsl": dsl, "lazy": lazy, "src": SRC, "impl_pretty": text.chars().take(2000).collect::<String>(), "impl_json_text": jtext.chars().take(4000).collect::<String>()}),
     };
     Ok(Case {
-        verdict: format!("c14_verdict {} {} {} {} {} {}", env, g, ij_coq, coq_bool(reparse_ok), coq_str(&text), coq_bool(synset)),
-        detail: format!("c14_detail {} {}", env, g),
+        verdict: format!("c14t_verdict {} {} {} {} {} {} {} {}", env, g, ij_coq, coq_bool(reparse_ok), coq_str(&text), coq_bool(synset), syn_tbl, coq_str_chunked(&jtext)),
+        detail: format!("c14t_detail {} {}", env, g),
         key: fnv(&format!("{}|{}", g, text)),
         nontrivial: n_nodes >= 2 && edge_with_attrs && nested,
         tags, replay,
